@@ -358,6 +358,15 @@ func eventSpace(si int) {
 		}
 		before += lens[b]
 	}
+	// all eight tracks at once (and a track number beyond the named ones)
+	for _, res := range resolutions {
+		var evs []ev
+		for tr := 0; tr < 8; tr++ {
+			evs = append(evs, ev{bar: tr % len(ss), track: tr, pos: tr % 3, dur: 1 + tr%2, note: true, key: uint8(50 + tr)})
+		}
+		judge(song{res: res, sigs: ss, evs: evs})
+		judge(song{res: res, sigs: ss, evs: evs[3:]})
+	}
 	for _, res := range resolutions {
 		judge(song{res: res, sigs: ss})
 		for i := range opts {
